@@ -51,6 +51,7 @@ type Profile struct {
 	RemoveBias                                                                   float64 // probability that a membership change removes a voter other than the proposer
 	HoldSnapshot                                                                 float64 // a node that has just accepted a snapshot is stalled (keeps the install pending) with this probability
 	SnapChaos                                                                    float64 // MsgSnap is delayed by election timeouts / duplicated with this probability
+	Follower                                                                     bool    // E2 followersim: one real node (learner) among abstract peers
 	PWideIDs                                                                     float64 // node ids spread over the whole uint64 range (hash-style ids) instead of 1..n
 	ShortElection                                                                bool
 	AggressiveCompaction                                                         bool
@@ -271,6 +272,26 @@ func DrawConfig(rng *rand.Rand, p Profile, runSeed uint64) RunConfig {
 		id++
 	}
 	rc.SplitSnapshot = chance(rng, p.PSplitSnapshot)
+	if p.Follower {
+		// one real node (id 1, a learner), three or five abstract voters
+		real := rc.Nodes[0]
+		rc.Nodes = []NodeCfg{real}
+		rc.Bootstrap = false
+		if rc.BaseIndex == 0 {
+			rc.BaseIndex = uint64(2 + rng.IntN(8))
+		}
+		nv := 3
+		if chance(rng, 0.4) {
+			nv = 5
+		}
+		rc.Voters, rc.Virtual = nil, nil
+		for i := 0; i < nv; i++ {
+			rc.Voters = append(rc.Voters, uint64(2+i))
+			rc.Virtual = append(rc.Virtual, uint64(2+i))
+		}
+		rc.Learners = []uint64{real.ID}
+		return rc
+	}
 	if chance(rng, p.PWideIDs) {
 		// hash-style ids: i -> i*0x2222222222222222 + 0x11 (spread over the whole range)
 		wide := func(id uint64) uint64 { return id*0x2222222222222222 + 0x11 }
@@ -685,6 +706,10 @@ func (g *Gen) payloadSize() int {
 }
 
 func (g *Gen) clientOp() {
+	if g.c.vg != nil {
+		g.virtualOp()
+		return
+	}
 	p := g.p
 	ws := []float64{p.WPropose, p.WBatch, p.WConf, p.WRead, p.WTransfer, p.WCampaign, p.WForget, p.WUnreach, p.WCompact, p.WCheckpoint, p.WSnapFault}
 	if g.proposals >= p.MaxProposals {
@@ -1047,4 +1072,78 @@ func (g *Gen) fault() {
 func ProfileByName(name string) (Profile, bool) {
 	p, ok := Profiles()[name]
 	return p, ok
+}
+
+// virtualOp is the workload of E2: one step of the abstract group.
+func (g *Gen) virtualOp() {
+	c := g.c
+	vg := c.vg
+	ids := vg.ids
+	lead := vg.leaderID()
+	anyLeader := func() uint64 {
+		// current or deposed leaders keep sending
+		var ls []uint64
+		for _, id := range ids {
+			if vg.peers[id].leader {
+				ls = append(ls, id)
+			}
+		}
+		if len(ls) == 0 {
+			return 0
+		}
+		return ls[g.rng.IntN(len(ls))]
+	}
+	if lead == 0 {
+		g.do(Action{K: AVElect, N: ids[g.rng.IntN(len(ids))]})
+		return
+	}
+	real := c.nodes[vg.real]
+	switch pick(g.rng, []float64{1.2, 6, 5, 4, 10, 2, 1.2, 1.5, 1.5}) {
+	case 0:
+		g.do(Action{K: AVElect, N: ids[g.rng.IntN(len(ids))]})
+	case 1:
+		if g.proposals < g.p.MaxProposals {
+			g.proposals++
+			g.do(Action{K: AVPropose, N: anyLeader(), Tags: []int{g.tag()}, I: g.payloadSize()})
+		}
+	case 2:
+		l := anyLeader()
+		q := ids[g.rng.IntN(len(ids))]
+		back := 0
+		if chance(g.rng, 0.4) {
+			back = g.rng.IntN(4)
+		}
+		g.do(Action{K: AVReplicate, N: l, M: q, I: back})
+	case 3:
+		g.do(Action{K: AVCommit, N: anyLeader()})
+	case 4:
+		back := 0
+		switch g.rng.IntN(4) {
+		case 0:
+			back = g.rng.IntN(3)
+		case 1:
+			back = g.rng.IntN(12)
+		case 2:
+			back = 1 << 20
+		}
+		g.do(Action{K: AVSendApp, N: anyLeader(), I: back, J: g.rng.IntN(6)})
+	case 5:
+		g.do(Action{K: AVHeartbeat, N: anyLeader()})
+	case 6:
+		g.do(Action{K: AVCompact, N: ids[g.rng.IntN(len(ids))], I: g.rng.IntN(4)})
+	case 7:
+		g.do(Action{K: AVSendSnap, N: anyLeader()})
+	case 8:
+		// the real node's own application maintenance
+		if real.up {
+			switch g.rng.IntN(3) {
+			case 0:
+				g.do(Action{K: ACompact, N: real.id, I: g.rng.IntN(3), J: g.rng.IntN(4), B: chance(g.rng, 0.5)})
+			case 1:
+				g.do(Action{K: ACheckpoint, N: real.id})
+			case 2:
+				g.do(Action{K: ASnapFault, N: real.id, I: 1})
+			}
+		}
+	}
 }
